@@ -26,6 +26,7 @@ fn main() {
     unsafe { libc::signal(libc::SIGPIPE, libc::SIG_IGN) };
     report::init(&cfg.check.to_uppercase(), cfg.shard, cfg.seed);
     util::install_panic_monitor();
+    util::install_stall_watchdog(&cfg);
     match cfg.check.as_str() {
         "c05" => c05::run(&cfg),
         "c09" => c09::run(&cfg),
